@@ -85,6 +85,6 @@ PROPS = {
         residual=("Parser panic-freedom / termination / error positions for arbitrary strings, the named-backreference bound (fixed by f23eb9e) and regex-automata's builder are NOT decided by proof: parse.rs is outside Verus' dialect; "
                   "they are exercised only by the bounded families. compile.rs arithmetic is decided in U-COMPILE."),
         assumptions=[T_VSTD, T_ARITH, T_EXTRACT, "T-parser-shape (expr_wf) for trees reaching analyze"],
-        bounded_families=['analyze'],
+        bounded_families=['analyze', 'parse'],
     ),
 }
